@@ -50,6 +50,11 @@ CLAIMED["C17"] = ("exploration",
  "Seeded search over (stream of 1-6 generated or corpus classes, visitor kind, interest mask at class/field/method/code/record level, declined items, reader schedule, 0-1 fault, accept on/off). After every successful call the position must equal the end of that class (a wrong skip corrupts the next class). What the masked tree builder received, projected into the reference model, must equal duke's own full read of the class with uninteresting kinds and declined members removed (an uninteresting kind that is delivered anyway must be the true value). accept() of the fully read tree into the same visitor must give the same. T1: schedules change nothing. T2: Err, or Ok equal to the expectation; a flipped byte is judged against the full read of the delivered bytes. Sampling, not proof.",
  "trusted: proj.rs (projection duke tree -> refclass::Sem), the mask filter in c17.rs, duke::verif::masked wrappers (pure forwarding, part of the hook), SimReader; the full read's own fidelity is C01's subject",
  "DESIGN.md section 4 C17")
+CLAIMED["C02"] = ("exploration",
+ "deterministic simulation: the class writer's Write sink replaced by a simulated sink (short writes, EINTR, Ok(0), ENOSPC at a drawn fraction of the output, EIO at call n, flush error); the accepted bytes are judged by an independent class-file parser against the projection of the tree that was written; workload = trees read from generated, corpus, big-jump and grow-ldc classes",
+ "Seeded search over (input class: generated under drawn features/size/layout, corpus, big-jump stress, grow-ldc; writer schedule; 0-1 sink fault). T0: the written bytes parse under the independent parser (structural validity) and denote exactly the projection of the tree, trampolines folded on both sides; two writes are byte-identical. T1: legal short / interrupted writes give byte-identical output. T2: Err with a prefix in the sink, never Ok with an incomplete sink; a later write to a healthy sink gives the plain bytes. A clean Err at T0 is allowed by the property and only counted. Sampling, not proof.",
+ "trusted: refclass parser/validator (independent, javap cross-checked), proj.rs, trampoline folding in c02.rs, SimWriter; classes duke's reader refuses cannot be written and are skipped (that is C01's subject)",
+ "DESIGN.md section 4 C02")
 PENDING = {}  # id -> reason (claimed in DESIGN.md but the check is not built yet)
 
 def main():
